@@ -9,6 +9,15 @@ step:
               are exactly the model's records                                   -> "text-differs-after-<op>"
   * reparse   when g holds no virtual line: the lines of str(g) equal the lines of
               str(gfapy.Gfa(model text)) (headers included)                       -> "reparse-differs-after-<op>"
+  * neighbours  for every surviving segment: every element of its collections (dovetails_L/R, edges_to_contained/
+              _containers, internals, gaps_L/R, fragments, paths, sets) is a line of this Gfa
+                                                                -> "neighbourhood-holds-removed-line-after-<op>"
+              and the distinct non-virtual lines in them are, as text, exactly the model's records that mention
+              the segment (the dependants the next removal will cascade over)    -> "neighbourhood-differs-after-<op>"
+
+The generator (profile options copy / rm_copy of _hist.py) also repeats stored lines that carry no identifier
+(E/G/O/U '*', F, C without ID: two lines with exactly the same text are legal) and removes one of several lines
+with the same text by instance; the model removes one record of that text.
 
 Dependency table used by the model (doc/tutorial/references.rst + the property text):
   GFA1  removed segment -> its L (and the P over them), its C, the P through it;  removed link -> the P over it
@@ -19,7 +28,8 @@ The oracle stops a history (silently) as soon as the model and the library disag
 *legal* (the property quantifies over legal steps; which calls must raise is C08/C09), or when the model marks
 the step's outcome as not pinned down by the documentation ("ambiguous").
 
-Signatures: text-differs-after-<op>, reparse-differs-after-<op>, text-unwritable-after-<op>, foreign-exception
+Signatures: text-differs-after-<op>, reparse-differs-after-<op>, neighbourhood-holds-removed-line-after-<op>,
+neighbourhood-differs-after-<op>, text-unwritable-after-<op>, foreign-exception
 (op in {add-<RT>, rm, rmline-<RT>, disconnect, rename, settag, deltag}).  On the pinned tree:
 text-differs-after-rm/rmline-S|L|E|O/disconnect = DESIGN 7 #1 (half of the dependants survive),
 text-differs-after-rm/rmline-G = #2 (gap stays listed in the set), foreign-exception = #10 (one-segment path).
@@ -37,6 +47,8 @@ NOT CHECKED:
   * header lines are compared through the reparse only (the way several H lines are merged is not part of
     this property).
   * the order of lines in str(g).
+  * *which* collection of a segment a dependant is filed under (C11) and how often it occurs there; collections of
+    lines other than segments (C02 walks those).
 """
 import collections
 from harness import lib
@@ -46,8 +58,9 @@ ID = "C05"
 STATS = collections.Counter()   # why histories stop / how much is compared (diagnostics only)
 RULE = ("exhaustive: every history of length <= 4 (quick) / <= 5 (thorough) over a 7-step alphabet per version (2 segments, 2 links, a path, rm, rename / segment, edge, gap, O, U, rm segment, rm edge); random: histories (4-25 steps quick, up to 60 thorough) of legal calls (4% meant to fail) on GFA1 and GFA2 "
         "graphs over 4-6 segment names: all record types, lines arriving before the lines they mention, fan-out > 1 "
-        "in every collection, nested and multi-line groups, rm by name and by instance, disconnect, rename, set/delete "
-        "tag; 85% of histories end by defining everything still undefined. Non-trivial: at least one "
+        "in every collection, repeated lines without identifier (8% of additions once one exists) and removal of one of "
+        "several equal lines by instance, nested and multi-line groups, rm by name and by instance, disconnect, rename, "
+        "set/delete tag; 85% of histories end by defining everything still undefined. Non-trivial: at least one "
         "rm/disconnect/rename in a history with at least two additions. Distinct by case hash.")
 
 PROF = H.profile(p_fail=0.04, gap_in_o=False, close=0.85, copy=0.08, rm_copy=0.5,
